@@ -3,11 +3,11 @@
 import json, subprocess, sys
 props=[json.loads(l)['id'] for l in open('/verif/properties.jsonl')]
 CLAIMS = {
- "C16": ("Compare's postconditions are the property statement (sign of the result == component-wise byte order of table, start key, id; 0 iff all three components equal) proved for all well-formed names with loop invariants, no bound on length; strict-total-order lemmas (irreflexive, transitive, trichotomous; first-region corollary) over the same spec functions",
+ "C16": ("Compare's postconditions are the property statement (sign of the result == component-wise byte order of table, start key, id; 0 iff all three components equal) proved for all well-formed names with loop invariants, no bound on length (the function's precondition is only the two-comma shape it needs not to panic; the order is stated for well-formed names); strict-total-order lemmas (irreflexive, transitive, trichotomous; first-region corollary) over the same spec functions",
          "trusted: own VC generator, SMT solvers, LCP axiom of the spec library; precondition = table bytes from the legal alphabet (all > ','), comma-free id suffix, as the statement quantifies",
          "DESIGN.md section 5, C16"),
- "C11": ("panic-freedom obligations (every index, slice, nil dereference, type assertion, make, explicit panic) and termination variants for every decoder on the path of received bytes: cellFromCellBlock, deserializeCellBlocks, Scan/Get/Mutate.DeserializeCellBlocks, multi.checkResponse/DeserializeCellBlocks/returnResults/get, client.receive (frame parsing), readN, readUint32, decompressCellblocks, infoFromCell, ParseRegionInfo, Increment; over fully symbolic buffers and message graphs with uint32 wrap-around modelled exactly",
-         "trusted: own VC generator; assumed contracts of proto.Unmarshal (required fields present, no panic), protowire, io.ReadFull, snappy codec; invariant that a multi holds only *hrpc.Get/*hrpc.Mutate calls; memory exhaustion only as allocation-bound obligations",
+ "C11": ("panic-freedom obligations (every index, slice, nil dereference, type assertion, make, explicit panic) and termination variants for every decoder on the path of received bytes: cellFromCellBlock, deserializeCellBlocks, Scan/Get/Mutate.DeserializeCellBlocks, multi.checkResponse/DeserializeCellBlocks/returnResults/get, client.receive (frame parsing), readN, readUint32, decompressCellblocks, infoFromCell, ParseRegionInfo, Increment; over fully symbolic buffers and message graphs with uint32 wrap-around modelled exactly; region.Compare / findCommaFromEnd never panic on names with two different commas, and a row of hbase:meta is accepted only if its row key has them (finding F19)",
+         "trusted: own VC generator; assumed contracts of proto.Unmarshal (required fields present, no panic), protowire, io.ReadFull, snappy codec; invariant that a multi holds only *hrpc.Get/*hrpc.Mutate calls; memory exhaustion only as allocation-bound obligations; that every name held by the location cache has the two-comma shape is by construction, not discharged (the B-tree is abstract)",
          "DESIGN.md section 5, C11"),
 }
 NA = {
